@@ -122,6 +122,29 @@ func genC01base(t *rapid.T) C01Case {
 		}
 		return c
 	case "add", "sub":
+		if h.Rare(t, "far", 60) {
+			// one addend tens of thousands of digits below the other (far beyond any "negligible" threshold a fast
+			// path might use): the result is the large one, nudged by the sign of the small one
+			p := rapid.SampledFrom([]int{1, 2, 17, 18, 19, 20, 36, 37, 38, 55, 56, 57}).Draw(t, "far.p")
+			if rapid.Bool().Draw(t, "far.prand") {
+				p = rapid.IntRange(1, 80).Draw(t, "far.p2")
+			}
+			big := h.Spec{F: "f", D: rapid.SampledFrom([]string{"1", "1", "1", "5", "999", "1000000000000000000000000000000000001"}).Draw(t, "far.d"), E: int64(rapid.IntRange(-50, 50).Draw(t, "far.e")), Neg: rapid.Bool().Draw(t, "far.neg"), M: h.GenMode(t, "far.m")}
+			if rapid.IntRange(0, 2).Draw(t, "far.drand") == 0 {
+				big.D = h.GenRoundDigits(t, "far.dg", p)
+			}
+			big.P = uint(len(big.D))
+			gap := rapid.SampledFrom([]int{4096, 32767, 32768, 65535, 65536, 65537, 70000, 131072, 140000}).Draw(t, "far.gap") + rapid.IntRange(-3, 3).Draw(t, "far.goff")
+			small := h.Spec{F: "f", D: h.GenDigits(t, "far.s", 8), E: big.E - int64(gap), Neg: rapid.Bool().Draw(t, "far.sneg"), M: h.GenMode(t, "far.sm")}
+			small.P = uint(len(small.D))
+			c.P = uint(p)
+			if rapid.Bool().Draw(t, "far.order") {
+				c.X, c.Y = big, small
+			} else {
+				c.X, c.Y = small, big
+			}
+			return c
+		}
 		if rapid.IntRange(0, 24).Draw(t, "zero-operand") == 0 {
 			// one addend is a zero: the result is the other addend, rounded as a sum
 			p := rapid.IntRange(1, 40).Draw(t, "p")
@@ -248,6 +271,16 @@ func genC01base(t *rapid.T) C01Case {
 		return c
 	case "quo":
 		lim := quoPrecLimit()
+		if h.Rare(t, "longdividend", 300) {
+			// a dividend of more than a thousand words divided by a short divisor at a small precision: the dividend
+			// is far longer than the quotient needs and is used in place
+			c.X = fresh(h.Spec{F: "f", D: h.GenDigitsN(t, "ld.x", rapid.IntRange(19500, 24000).Draw(t, "ld.n")), E: int64(rapid.IntRange(-50, 50).Draw(t, "ld.e")), Neg: rapid.Bool().Draw(t, "ld.neg"), M: h.GenMode(t, "ld.m")})
+			c.X.P = uint(len(c.X.D))
+			c.Y = fresh(h.GenFinite(t, "ld.y", 60))
+			c.Y.E = int64(rapid.IntRange(-50, 50).Draw(t, "ld.ye"))
+			c.P = uint(rapid.IntRange(1, 80).Draw(t, "ld.p"))
+			return c
+		}
 		switch {
 		case shape == 0:
 			c.X = h.Spec{F: "f", D: h.GenDigitsN(t, "x", rapid.IntRange(1, 4).Draw(t, "xn")), E: int64(rapid.IntRange(-5, 5).Draw(t, "xe")), Neg: rapid.Bool().Draw(t, "xneg")}
@@ -378,13 +411,19 @@ func c01Model(c C01Case) (model.Res, model.X) {
 }
 
 func c01Exec(c C01Case) *decimal.Decimal {
+	z, _, _ := c01ExecOps(c)
+	return z
+}
+
+// c01ExecOps also returns the operand variables (nil when the operation has none / one).
+func c01ExecOps(c C01Case) (z, xo, yo *decimal.Decimal) {
 	x := c.X.Build()
 	var y *decimal.Decimal
 	switch c.Op {
 	case "add", "sub", "mul", "quo":
 		y = c.Y.Build()
 	}
-	z := mkRecv(c.P, c.M)
+	z = mkRecv(c.P, c.M)
 	switch c.Alias {
 	case "x":
 		z = x
@@ -410,7 +449,7 @@ func c01Exec(c C01Case) *decimal.Decimal {
 		z = x
 		z.SetPrec(c.P)
 	}
-	return z
+	return z, x, y
 }
 
 func checkC01(c C01Case, o *h.Obs) *h.Fail {
@@ -418,7 +457,19 @@ func checkC01(c C01Case, o *h.Obs) *h.Fail {
 		return h.Failf("bad-case", "precision 0")
 	}
 	want, exact := c01Model(c)
-	got := h.Read(c01Exec(c))
+	zd, xd, yd := c01ExecOps(c)
+	got := h.Read(zd)
+	// operands that are not the receiver keep value and attributes (also for operands of a thousand words)
+	if xd != nil && xd != zd {
+		if xs := h.Read(xd); xs.Malformed != "" || !xs.Val().Equal(c.X.Val()) || xs.Prec != c.X.P || xs.Mode != c.X.M {
+			return h.Failf("operand-modified", "%s changed its first operand: %v is now %v", c.Op, c.X, xs)
+		}
+	}
+	if yd != nil && yd != zd {
+		if ys := h.Read(yd); ys.Malformed != "" || !ys.Val().Equal(c.Y.Val()) || ys.Prec != c.Y.P || ys.Mode != c.Y.M {
+			return h.Failf("operand-modified", "%s changed its second operand: %v is now %v", c.Op, c.Y, ys)
+		}
+	}
 	cls := model.Classify(exact, uint64(c.P))
 	if c.P == 0 {
 		cls = "prec0"
@@ -441,7 +492,7 @@ func checkC01(c C01Case, o *h.Obs) *h.Fail {
 	return nil
 }
 
-const ruleC01 = "rapid-generated (op, operands, receiver precision, mode) for add/sub/mul/quo/set/setprec/neg/abs: operands from word-patterned digit generators (0, 10^19-1, 5*10^18, 10^k, 10^k-1 words, uniform filler), result-directed constructions (chosen exact sum split into addends; x=q*y(+r) with q carrying a tie / all-nines / just-above / just-below pattern at the precision), near-total cancellation, exponents at both ends of the int32 range, zero addends; oracle = math/big exact result rounded once by the reference Round (range rule included), compared on sign, digits, exponent read back through BitsExp. Non-trivial = the model result is inexact or left the finite range (rounding, overflow, underflow happened); distinct = distinct case encodings. Bounds: exponent gap of sums <= 600 (quick) / 6000 (thorough) digits, Quo precision <= 2000 / 40000, operands <= 2500 / 20000 digits."
+const ruleC01 = "rapid-generated (op, operands, receiver precision, mode) for add/sub/mul/quo/set/setprec/neg/abs: operands from word-patterned digit generators (0, 10^19-1, 5*10^18, 10^k, 10^k-1 words, uniform filler), result-directed constructions (chosen exact sum split into addends; x=q*y(+r) with q carrying a tie / all-nines / just-above / just-below pattern at the precision), near-total cancellation, exponents at both ends of the int32 range, zero addends, an addend 4096 .. 140000 digits below the other, dividends of 19500-24000 digits against short divisors, receivers aliased to an operand; oracle = math/big exact result rounded once by the reference Round (range rule included), compared on sign, digits, exponent read back through BitsExp; operands that are not the receiver must be unchanged. Non-trivial = the model result is inexact or left the finite range (rounding, overflow, underflow happened); distinct = distinct case encodings. Bounds: exponent gap of sums <= 600 (quick) / 6000 (thorough) digits, Quo precision <= 2000 / 40000, operands <= 2500 / 20000 digits."
 
 var propC01 = &h.Prop[C01Case]{ID: "C01", Rule: ruleC01, Gen: genC01, Check: checkC01, Matchers: map[string]func(C01Case) bool{}}
 
